@@ -16,7 +16,19 @@ RULE = ("request = [last] one constructor + a list of <= 40 operations; the answ
         "oracle still checks every step in full); (2b) the same exploration run to a FIXPOINT of the structural state space "
         "(no depth bound: until no new arrangement appears) under the shape-changing and rearranging operations from "
         "every shape with at most 4 (quick) / 6 (thorough) cells; (3) 3000 (quick) / 30000 (thorough) random scripts of 40 "
-        "operations on shapes up to 6 x 6 from all constructors. non-trivial = the constructor succeeds, at least one "
+        "operations on shapes up to 6 x 6 from all constructors; (4) shapes with a dimension of 7..65 (every value 7..40 as "
+        "height and as width, squares 7..20, 32x33, 17x34, 40x40): a chain of every rearranging operation on a labelled array, a "
+        "chain of invalid arguments, 350/4000 random scripts (requests on more than 150 cells carry `last`: the model prints "
+        "the full observation after the last step only; the harness oracle judges every step); (5) text layout with items of "
+        "1..20 characters of both signs; (6) ragged nested vectors of 2..12 rows with one or two deviating rows (also "
+        "compensating ones). ORACLE-ONLY observers after every step (not printed, judged against the plain grid): iterator "
+        "protocol (size_hint before/after a row, count, nth, last, skip; rows_mut and `for row in &mut arr` row counts, writes "
+        "through nth/last), == in both directions against nested vectors with one item changed (corners, middle), one row "
+        "longer/shorter, the same items with a row boundary moved, the transposed / flattened vector, one row more/less and "
+        "(shapes up to 3 x 3) EVERY tuple of row lengths 0..w+1; the array mapped to f64 and to String (shape, both index "
+        "forms, rows, max/min, Display, ==, as_scalar, transpose, reshape), converted to u8 / i128; copying transpose and its "
+        "involution; as_scalar_unchecked; per constructor: identity at f64/i32/i128, from_flat from Vec/&Vec/slice/Box/Rc and at "
+        "String items, nested constructors at String/i128/f64 items incl. their refusal of ragged rows. non-trivial = the constructor succeeds, at least one "
         "operation succeeds and the array is non-empty after some step; distinct = distinct request lines")
 
 ARITY = {"reshape": 1, "transpose": 0, "transposemut": 0, "swap": 2, "set": 3, "set2": 3, "fillrow": 2,
